@@ -297,6 +297,7 @@ def applyFn (kind : String) (args : List V) (kwargs : List (String × V)) : Exce
   | "mk_zero", [] => .ok (.int 0)
   | "raise_ve", _ => .error (e "ValueError")
   | "raise_multiline", _ => .error (e "ValueError")
+  | "nested_glom_fail", _ => .error (e "PathAccessError")
   | "raise_glom", _ => .error (e "GlomError")
   | "id", [v] => .ok v
   | "const7", [_] => .ok (.int 7)
